@@ -382,6 +382,8 @@ class Prov:
                 if "def" in op:
                     return ("const", op["ty"], int(op["v"]), op["def"])
                 return ("const", op["ty"], int(op["v"]))
+            if "static" in op:
+                return ("cdef", op["static"], None)
             if "def" in op:
                 return ("cdef", op["def"], op.get("disp"))
             return ("constd", op["ty"], op.get("disp"))
@@ -953,6 +955,14 @@ class Program:
         if c is None:
             raise CannotDecide("anchor constant not found: %s" % path)
         return c
+
+    def static_init(self, path):
+        """provenance term of a static's initializer"""
+        c = self.const(path)
+        if not c.get("init"):
+            return None
+        holder = type("StaticInit", (), {"promoted_body": lambda self_, i: None, "prog": self, "path": path})()
+        return Prov(Body(holder, c["init"])).local(0)
 
     # instance graph
     def inst_reach(self, root_path, follow=None):
